@@ -69,8 +69,8 @@ func setSchedule() {
 // ---------------------------------------------------------------- identities (ground once per run)
 
 type identities struct {
-	qiK          [3]*btcec.PrivateKey
-	qiA          [3]common.Address
+	qiK          [6]*btcec.PrivateKey // 0..2 receive the foreign ETXs; 3..5 only outputs of our own spends
+	qiA          [6]common.Address
 	quaiK        *ecdsa.PrivateKey
 	quaiA        common.Address
 	quaiCoinbase common.Address
@@ -128,7 +128,7 @@ func grindQuai(r *hlib.Rng) (*ecdsa.PrivateKey, common.Address) {
 
 func makeIdentities() {
 	r := hlib.NewRng(424242) // fixed: identities do not depend on the run seed (keeps replays cheap and stable)
-	for i := range id.qiK {
+	for i := 0; i < 3; i++ {
 		id.qiK[i], id.qiA[i] = grindQi(r)
 	}
 	id.quaiK, id.quaiA = grindQuai(r)
@@ -142,6 +142,9 @@ func makeIdentities() {
 	id.farQi = mkAddr(r, 1, true)
 	id.farQuai = mkAddr(r, 1, false)
 	id.convSender = mkAddr(r, 0, false)
+	for i := 3; i < len(id.qiK); i++ { // ground last: the identities above stay what they were
+		id.qiK[i], id.qiA[i] = grindQi(r)
+	}
 	vm.InitializePrecompiles(loc)
 	id.lockupAddr = vm.LockupContractAddresses[[2]byte{loc[0], loc[1]}]
 	// forwarder: CALL(gas, lockupContract, 0, calldata) ; STOP  — msg.sender of the precompile = this contract
@@ -233,6 +236,11 @@ type node struct {
 	myQi   []*common.Hash
 	closed bool
 	index  bool
+	// intra-block chains: outputs of pool transactions that were placed into the database only
+	// while the worker assembles (it reads inputs from the database; a foreign miner needs no such
+	// help), and the hashes of the transactions that create them
+	temp        []types.OutPoint
+	chainParent map[common.Hash]bool
 }
 
 func openNode(db ethdb.Database, index bool) *node {
@@ -329,6 +337,84 @@ func mixedAddress(e *effect) bool {
 		}
 	}
 	return false
+}
+
+// intraOutpoints: "txhash:index:" of every output the block both created and spent
+func intraOutpoints(e *effect) []string {
+	var out []string
+	for _, sp := range e.spent {
+		for _, ck := range e.createdKeys {
+			if bytes.Equal(stripDen(ck), sp.k) {
+				if h, idx, err := rawdb.ReverseUtxoKey(sp.k); err == nil {
+					out = append(out, fmt.Sprintf("%x:%d:", h.Bytes(), idx))
+				}
+				break
+			}
+		}
+	}
+	return out
+}
+
+// onlyIntraBlockLeftovers: the index image `have` equals `want` except for EXTRA outpoints, all of
+// which were created and spent inside one of the rolled-back blocks (known defect of the wallet
+// index; any other discrepancy is classified separately).
+func onlyIntraBlockLeftovers(have, want []kv, olds []*effect) bool {
+	var intra []string
+	for _, e := range olds {
+		intra = append(intra, intraOutpoints(e)...)
+	}
+	if len(intra) == 0 {
+		return false
+	}
+	set := func(v []byte) map[string]bool {
+		m := map[string]bool{}
+		if len(v) > 0 {
+			for _, it := range strings.Split(string(v), ",") {
+				m[it] = true
+			}
+		}
+		return m
+	}
+	hm := map[string][]byte{}
+	for _, e := range have {
+		hm[string(e.k)] = e.v
+	}
+	for _, e := range want {
+		hv, ok := hm[string(e.k)]
+		if !ok {
+			return false // an address is missing from the index
+		}
+		hs := set(hv)
+		for it := range set(e.v) {
+			if !hs[it] {
+				return false // a wanted outpoint is missing
+			}
+		}
+	}
+	wm := map[string][]byte{}
+	for _, e := range want {
+		wm[string(e.k)] = e.v
+	}
+	extras := 0
+	for _, e := range have {
+		ws := set(wm[string(e.k)])
+		for it := range set(e.v) {
+			if ws[it] {
+				continue
+			}
+			extras++
+			isIntra := false
+			for _, p := range intra {
+				if strings.HasPrefix(it, p) {
+					isIntra = true
+				}
+			}
+			if !isIntra {
+				return false
+			}
+		}
+	}
+	return extras > 0
 }
 
 // canonOutpoints: the address index stores a list per address; its order depends on history,
@@ -722,12 +808,13 @@ type scenario struct {
 	ID                  int
 	Seed                uint64
 	Backend             string
-	Kind                string // random | f6 | deep | double
+	Kind                string // random | f6 | deep | double | chain
 	Index               bool   // IndexAddressUtxos
 	blocks              map[common.Hash]*blockInfo
 	maxNum              uint64
 	allowDelegateChange bool
 	noLockups           bool
+	noChain             bool // random scenarios: no chains of Qi spends inside one block
 }
 
 type caseJSON struct {
@@ -738,6 +825,7 @@ type caseJSON struct {
 	ScnKind  string       `json:"scn_kind"`
 	DelegChg bool         `json:"delegate_change"`
 	NoLockup bool         `json:"no_lockups"`
+	NoChain  bool         `json:"no_chain"`
 	Index    bool         `json:"index_address_utxos"`
 	Backend  string       `json:"backend"`
 	Switch   int          `json:"switch"`
@@ -876,13 +964,37 @@ func signQi(qt *types.QiTx, keys []*btcec.PrivateKey, signer types.Signer) (*typ
 	return types.NewTx(qt), nil
 }
 
+// qiRate: miner fee and base gas of a Qi transaction (the worker sorts by fee per gas)
+func qiRate(sumIn *big.Int, nIn int, outs types.TxOuts) (fee *big.Int, gas uint64) {
+	fee = new(big.Int).Set(sumIn)
+	for _, o := range outs {
+		fee.Sub(fee, den(o.Denomination))
+	}
+	return fee, uint64(nIn)*params.SloadGas + uint64(len(outs))*params.CallValueTransferGas + params.EcrecoverGas
+}
+
+// rateBelow: fee/gas < 0.8 * pfee/pgas
+func rateBelow(fee *big.Int, gas uint64, pfee *big.Int, pgas uint64) bool {
+	l := new(big.Int).Mul(fee, new(big.Int).SetUint64(pgas*5))
+	r := new(big.Int).Mul(pfee, new(big.Int).SetUint64(gas*4))
+	return l.Cmp(r) < 0
+}
+
 // addQiSpends puts up to count Qi transactions spending our unlocked outputs into the pool.
-func (n *node) addQiSpends(r *hlib.Rng, count int, tags *[]string) {
+// chain > 0: outputs of a transaction just put into the pool become inputs of further
+// transactions of the SAME block (chains of depth <= chain+1: tx2 spends an output of tx1, tx3 one
+// of tx2 ...), with probability chainPct per transaction. The worker takes its inputs from the
+// database and orders by fee per gas, so the intermediate outputs are placed into the database
+// until the block is assembled (dropTemp) and every child pays a lower rate than its parents.
+func (n *node) addQiSpends(r *hlib.Rng, count int, chain int, chainPct int, tags *[]string) {
 	head := n.headNum()
 	type cand struct {
-		op  types.OutPoint
-		u   *types.UtxoEntry
-		key int
+		op    types.OutPoint
+		u     *types.UtxoEntry
+		key   int
+		depth int
+		pfee  *big.Int // chained input: rate of the creating transaction
+		pgas  uint64
 	}
 	var cands []cand
 	for _, e := range scanPrefix(n.db, "ut", rawdb.UtxoKeyLength) {
@@ -901,28 +1013,99 @@ func (n *node) addQiSpends(r *hlib.Rng, count int, tags *[]string) {
 		if ki < 0 {
 			continue
 		}
-		cands = append(cands, cand{types.OutPoint{TxHash: h, Index: idx}, u, ki})
+		cands = append(cands, cand{op: types.OutPoint{TxHash: h, Index: idx}, u: u, key: ki})
 	}
 	signer := types.NewSigner(n.z.Config.ChainID, loc)
-	for c := 0; c < count && len(cands) > 0; c++ {
-		i := r.Intn(len(cands))
-		in := []cand{cands[i]}
-		cands = append(cands[:i], cands[i+1:]...)
-		if len(cands) > 0 && r.Chance(25) {
-			j := r.Intn(len(cands))
-			in = append(in, cands[j])
-			cands = append(cands[:j], cands[j+1:]...)
+	var chained []cand // outputs of this block's pool transactions, preferred as inputs
+	for c := 0; c < count && len(cands)+len(chained) > 0; c++ {
+		var in []cand
+		if len(chained) > 0 {
+			i := r.Intn(len(chained))
+			in = append(in, chained[i])
+			chained = append(chained[:i], chained[i+1:]...)
+			// sometimes a second input: a sibling output of the same block or an old output
+			if len(chained) > 0 && r.Chance(30) {
+				j := r.Intn(len(chained))
+				in = append(in, chained[j])
+				chained = append(chained[:j], chained[j+1:]...)
+			} else if len(cands) > 0 && r.Chance(25) {
+				j := r.Intn(len(cands))
+				in = append(in, cands[j])
+				cands = append(cands[:j], cands[j+1:]...)
+			}
+		} else {
+			i := r.Intn(len(cands))
+			in = append(in, cands[i])
+			cands = append(cands[:i], cands[i+1:]...)
+			if len(cands) > 0 && r.Chance(25) {
+				j := r.Intn(len(cands))
+				in = append(in, cands[j])
+				cands = append(cands[:j], cands[j+1:]...)
+			}
 		}
 		// outputs: the largest input pays d-1 (and sometimes d-2) to our other addresses, the rest is fee
-		sort.Slice(in, func(a, b int) bool { return in[a].u.Denomination > in[b].u.Denomination })
+		sort.SliceStable(in, func(a, b int) bool { return in[a].u.Denomination > in[b].u.Denomination })
 		d := in[0].u.Denomination
-		o1 := r.Intn(3)
-		outs := types.TxOuts{{Denomination: d - 1, Address: id.qiA[o1].Bytes(), Lock: big.NewInt(0)}}
+		sumIn := new(big.Int)
+		depth := 0
+		for _, x := range in {
+			sumIn.Add(sumIn, den(x.u.Denomination))
+			if x.depth > depth {
+				depth = x.depth
+			}
+		}
+		// output addresses: a Qi transaction may not pay to an address it spends from, nor twice to one address
+		var avail []int
+		for i := range id.qiA {
+			used := false
+			for _, x := range in {
+				used = used || x.key == i
+			}
+			if !used {
+				avail = append(avail, i)
+			}
+		}
+		for i := len(avail) - 1; i > 0; i-- {
+			j := r.Intn(i + 1)
+			avail[i], avail[j] = avail[j], avail[i]
+		}
+		addrOf := func(i int) []byte { return id.qiA[avail[i]].Bytes() }
+		outs := types.TxOuts{{Denomination: d - 1, Address: addrOf(0), Lock: big.NewInt(0)}}
 		if r.Chance(50) {
-			outs = append(outs, types.TxOut{Denomination: d - 2, Address: id.qiA[(o1+1)%3].Bytes(), Lock: big.NewInt(0)})
+			outs = append(outs, types.TxOut{Denomination: d - 2, Address: addrOf(len(outs)), Lock: big.NewInt(0)})
 		}
 		if len(in) == 2 { // second input (smaller or equal) becomes a small change output: trimmable
-			outs = append(outs, types.TxOut{Denomination: uint8(r.Intn(5)), Address: id.qiA[(o1+2)%3].Bytes(), Lock: big.NewInt(0)})
+			outs = append(outs, types.TxOut{Denomination: uint8(r.Intn(5)), Address: addrOf(len(outs)), Lock: big.NewInt(0)})
+		}
+		// a child must pay a lower rate than every transaction it depends on (block order = rate order)
+		okRate := func() bool {
+			fee, gas := qiRate(sumIn, len(in), outs)
+			if fee.Sign() <= 0 {
+				return false
+			}
+			for _, x := range in {
+				if x.pfee != nil && !rateBelow(fee, gas, x.pfee, x.pgas) {
+					return false
+				}
+			}
+			return true
+		}
+		hasDen := func(x uint8) bool {
+			for _, o := range outs {
+				if o.Denomination == x {
+					return true
+				}
+			}
+			return false
+		}
+		for _, x := range []uint8{d - 2, d - 3} { // lower the fee with further outputs
+			if !okRate() && !hasDen(x) && len(outs) < len(avail) {
+				outs = append(outs, types.TxOut{Denomination: x, Address: addrOf(len(outs)), Lock: big.NewInt(0)})
+			}
+		}
+		if !okRate() {
+			*tags = append(*tags, "chain-rate-not-satisfiable")
+			continue
 		}
 		qt := &types.QiTx{ChainID: n.z.Config.ChainID, TxOut: outs}
 		var keys []*btcec.PrivateKey
@@ -936,11 +1119,63 @@ func (n *node) addQiSpends(r *hlib.Rng, count int, tags *[]string) {
 		}
 		if err := n.z.Pool.AddLocal(tx); err != nil {
 			*tags = append(*tags, "qi-spend-rejected-by-pool")
+			if os.Getenv("C10_DEBUG") != "" {
+				fmt.Fprintf(os.Stderr, "pool rejects (depth %d, %d in, %d out): %v\n", depth, len(in), len(outs), err)
+			}
 			continue
 		}
 		h := tx.Hash()
 		n.myQi = append(n.myQi, &h)
+		if depth < chain && r.Chance(chainPct) {
+			fee, gas := qiRate(sumIn, len(in), outs)
+			for j, o := range outs {
+				if o.Denomination < 6 {
+					continue
+				}
+				if r.Chance(25) { // this output of the chain stays unspent in the block
+					continue
+				}
+				oc := o
+				u := types.NewUtxoEntry(&oc)
+				if err := rawdb.CreateUTXO(n.db, h, uint16(j), u); err != nil {
+					continue
+				}
+				op := types.OutPoint{TxHash: h, Index: uint16(j)}
+				n.temp = append(n.temp, op)
+				if n.chainParent == nil {
+					n.chainParent = map[common.Hash]bool{}
+				}
+				n.chainParent[h] = true
+				chained = append(chained, cand{op: op, u: u, key: qiKeyOf(o.Address), depth: depth + 1, pfee: fee, pgas: gas})
+			}
+		}
 	}
+}
+
+// dropTemp removes the intermediate outputs placed into the database for the assembly.
+func (n *node) dropTemp() {
+	for _, op := range n.temp {
+		rawdb.DeleteUTXO(n.db, op.TxHash, op.Index)
+	}
+	n.temp = nil
+}
+
+// chainOrderOK: every transaction of the block that spends an output of another pool
+// transaction of this round comes after that transaction (otherwise the block is not valid and
+// a miner would not publish it).
+func (n *node) chainOrderOK(b *types.WorkObject) bool {
+	seen := map[common.Hash]bool{}
+	for _, tx := range b.Transactions() {
+		if tx.Type() == types.QiTxType {
+			for _, in := range tx.TxIn() {
+				if n.chainParent[in.PreviousOutPoint.TxHash] && !seen[in.PreviousOutPoint.TxHash] {
+					return false
+				}
+			}
+		}
+		seen[tx.Hash()] = true
+	}
+	return true
 }
 
 // addClaim puts one claim of an unlocked lockup tranche of a previous epoch into the pool.
@@ -1021,6 +1256,8 @@ func (n *node) submitQuaiTx(tx *types.Transaction, tags *[]string, what string) 
 }
 
 type blockOpts struct {
+	chain     int // intra-block chains of Qi spends: maximal number of links (0 = none)
+	chainPct  int
 	noContent bool
 	inbound   types.Transactions // forced inbound set for the head (if not yet decided)
 	forceInb  bool
@@ -1067,7 +1304,7 @@ func (s *scenario) genChild(n *node, r *hlib.Rng, branch string, o *blockOpts) (
 	tags = append(tags, fmt.Sprintf("miner:%d", m))
 	if !o.noContent {
 		if o.spends > 0 {
-			n.addQiSpends(r, o.spends, &tags)
+			n.addQiSpends(r, o.spends, o.chain, o.chainPct, &tags)
 		}
 		if o.claim {
 			if n.addClaim(r, &tags) {
@@ -1076,10 +1313,17 @@ func (s *scenario) genChild(n *node, r *hlib.Rng, branch string, o *blockOpts) (
 		}
 	}
 	b, err := n.z.LockedAssemble(true)
+	n.dropTemp()
 	if len(n.myQi) > 0 {
 		n.z.Pool.RemoveQiTxs(n.myQi)
 		n.myQi = nil
 	}
+	if err == nil && len(n.chainParent) > 0 && !n.chainOrderOK(b) {
+		// the worker ordered a child before its parent: not a block a miner would publish; build the block without our spends
+		tags = append(tags, "chain-order-fallback")
+		b, err = n.z.LockedAssemble(true)
+	}
+	n.chainParent = nil
 	if err != nil {
 		return nil, fmt.Errorf("assemble: %w", err)
 	}
@@ -1147,9 +1391,35 @@ func (s *scenario) genChild(n *node, r *hlib.Rng, branch string, o *blockOpts) (
 			}
 		}
 	}
+	if dp := chainDepth(b); dp >= 2 {
+		tags = append(tags, fmt.Sprintf("intra-block-chain-depth:%d", dp))
+	}
 	bi.tags = append(bi.tags, tags...)
 	s.blocks[bi.hash] = bi
 	return bi, nil
+}
+
+// chainDepth: length of the longest chain tx1 -> tx2 -> ... of Qi transactions inside the block
+// where each spends an output of the previous one (1 = no chaining)
+func chainDepth(b *types.WorkObject) int {
+	depth := map[common.Hash]int{}
+	max := 0
+	for _, tx := range b.Transactions() {
+		if tx.Type() != types.QiTxType {
+			continue
+		}
+		d := 1
+		for _, in := range tx.TxIn() {
+			if p, ok := depth[in.PreviousOutPoint.TxHash]; ok && p+1 > d {
+				d = p + 1
+			}
+		}
+		depth[tx.Hash()] = d
+		if d > max {
+			max = d
+		}
+	}
+	return max
 }
 
 // ---------------------------------------------------------------- the scenario
@@ -1214,6 +1484,13 @@ func (s *scenario) commonAncestor(a, b common.Hash) common.Hash {
 
 func short(h common.Hash) string { return h.Hex()[2:10] }
 
+func clip(s string, n int) string {
+	if len(s) > n {
+		return s[:n] + "..."
+	}
+	return s
+}
+
 // runScenario runs one scenario under a watchdog: a node that stops answering must not hang the check.
 func (rn *runner) runScenario(s *scenario) {
 	done := make(chan struct{})
@@ -1234,7 +1511,7 @@ func (rn *runner) runScenario1(s *scenario) {
 	defer func() {
 		if e := recover(); e != nil {
 			rn.rep.Fail("harness-or-node-panic", fmt.Sprintf("scenario %d (%s, %s): panic: %v", s.ID, s.Kind, s.Backend, e),
-				caseJSON{Id: rn.nextID, Kind: "reorg", Scenario: s.ID, ScnSeed: s.Seed, ScnKind: s.Kind, Backend: s.Backend, DelegChg: s.allowDelegateChange, NoLockup: s.noLockups, Index: s.Index})
+				caseJSON{Id: rn.nextID, Kind: "reorg", Scenario: s.ID, ScnSeed: s.Seed, ScnKind: s.Kind, Backend: s.Backend, DelegChg: s.allowDelegateChange, NoLockup: s.noLockups, NoChain: s.noChain, Index: s.Index})
 			rn.nextID++
 		}
 	}()
@@ -1302,6 +1579,9 @@ func (rn *runner) runScenario1(s *scenario) {
 	if s.Kind == "f6" || s.Kind == "double" {
 		s.f6Base(n0, r, step)
 	}
+	if s.Kind == "chain" {
+		s.chainBase(n0, r, step)
+	}
 	fork := s.blocks[n0.z.Hc.CurrentHeader().Hash()]
 	s.decideInbound(n0, r, s.forkInbound(r))
 	snapF := snapshot(db0)
@@ -1319,7 +1599,7 @@ func (rn *runner) runScenario1(s *scenario) {
 	switch s.Kind {
 	case "deep":
 		plans[0].depth, plans[1].depth = 5, 5
-	case "f6", "double":
+	case "f6", "double", "chain":
 		plans[0].depth, plans[1].depth = 2, 2
 	}
 	if s.Kind == "random" && r.Chance(40) && plans[0].depth >= 2 {
@@ -1348,6 +1628,8 @@ func (rn *runner) runScenario1(s *scenario) {
 				o = s.f6Opts(bp.name, i, r)
 			case s.Kind == "double":
 				o = &blockOpts{noContent: true, miner: 0}
+			case s.Kind == "chain":
+				o = s.chainOpts(bp.name, i, r)
 			default:
 				o = s.randomOpts(r)
 			}
@@ -1426,7 +1708,7 @@ func (rn *runner) runScenario1(s *scenario) {
 		}
 		cid := rn.nextID
 		rn.nextID++
-		cj := caseJSON{Id: cid, Kind: "reorg", Scenario: s.ID, ScnSeed: s.Seed, ScnKind: s.Kind, Backend: s.Backend, DelegChg: s.allowDelegateChange, NoLockup: s.noLockups, Index: s.Index, Switch: si,
+		cj := caseJSON{Id: cid, Kind: "reorg", Scenario: s.ID, ScnSeed: s.Seed, ScnKind: s.Kind, Backend: s.Backend, DelegChg: s.allowDelegateChange, NoLockup: s.noLockups, NoChain: s.noChain, Index: s.Index, Switch: si,
 			From: fmt.Sprintf("%s#%d", cur.branch, cur.num), To: fmt.Sprintf("%s#%d", tgt.branch, tgt.num)}
 		anc := s.commonAncestor(cur.hash, tgt.hash)
 		olds := s.pathFrom(anc, cur.hash)
@@ -1479,6 +1761,9 @@ func (rn *runner) runScenario1(s *scenario) {
 			if f6Seen {
 				return "lockup-undo-record-carries-new-delegate"
 			}
+			if component == "address-index-intra" {
+				return "address-index-rollback-keeps-output-created-and-spent-in-block"
+			}
 			if component == "address-index" && mixedSeen {
 				return "address-index-rollback-loses-restored-outpoints"
 			}
@@ -1512,11 +1797,41 @@ func (rn *runner) runScenario1(s *scenario) {
 			report("head", fmt.Sprintf("head pointers: db %s memory %s want %s", short(post.Head), short(post.MemHead), short(tgt.hash)))
 		}
 		if s.Index {
-			if !kvsEqual(post.Au, want.Au) {
+			if !kvsEqual(post.Au, want.Au) && onlyIntraBlockLeftovers(post.Au, want.Au, oldEff) {
+				report("address-index-intra", "address->outpoints index still lists outputs that a rolled-back block created AND spent (the removal loop of the rollback looks the owner up in the database, where such an output never was): "+clip(kvsDiff(post.Au, want.Au), 400))
+			} else if !kvsEqual(post.Au, want.Au) {
 				report("address-index", "address->outpoints index differs (as sets) from the node that only saw the winning branch: "+kvsDiff(post.Au, want.Au))
 			}
 			if !kvsEqual(post.Al, want.Al) {
 				report("address-lockups", "address->locked balance index differs from the node that only saw the winning branch: "+kvsDiff(post.Al, want.Al))
+			}
+		}
+		// M1b: an output that a rolled-back block created AND spent (tx2 spends an output of tx1 of the
+		// same block) exists on no chain; the rollback first re-creates it (spent record) and then
+		// deletes it (created-key record) in one batch: it must be absent, i.e. unspendable
+		{
+			createdByNew := map[string]bool{}
+			for _, e := range newEff {
+				for _, c := range e.createdKeys {
+					createdByNew[string(stripDen(c))] = true
+				}
+			}
+			for _, e := range oldEff {
+				for _, sp := range e.spent {
+					if !keyIn(sp.k, e.createdKeys) && !func() bool {
+						for _, c := range e.createdKeys {
+							if bytes.Equal(stripDen(c), sp.k) {
+								return true
+							}
+						}
+						return false
+					}() {
+						continue
+					}
+					if _, present := imgLookup(post.Ut, sp.k); present && !createdByNew[string(sp.k)] {
+						report("intra-block-output-resurrected", fmt.Sprintf("output %x, created and spent inside rolled-back block #%d, is back in the UTXO set after the reorganisation (spendable although no canonical transaction creates it)", sp.k, e.num))
+					}
+				}
 			}
 		}
 		// M2: canonical map = ancestry of the target, nothing above it
@@ -1615,11 +1930,14 @@ func (rn *runner) runScenario1(s *scenario) {
 				if strings.HasPrefix(t, "undo:") || t == "lockup-claimed" || t == "created-and-spent-in-block" {
 					feat["old-"+t] = true
 				}
+				if strings.HasPrefix(t, "intra-block-chain-depth:") {
+					rn.rep.Count("rolled-back-block:" + t)
+				}
 			}
 		}
 		for _, b := range news {
 			for _, t := range b.tags {
-				if strings.HasPrefix(t, "undo:") || t == "lockup-claimed" {
+				if strings.HasPrefix(t, "undo:") || t == "lockup-claimed" || t == "created-and-spent-in-block" {
 					feat["new-"+t] = true
 				}
 			}
@@ -1692,7 +2010,43 @@ func sameUndo(a, b *effect) bool {
 }
 
 func (s *scenario) randomOpts(r *hlib.Rng) *blockOpts {
-	return &blockOpts{miner: -1, spends: r.Pick(3, 4, 2), claim: !s.noLockups && r.Chance(35)}
+	o := &blockOpts{miner: -1, spends: r.Pick(3, 4, 2), claim: !s.noLockups && r.Chance(35)}
+	// blocks a foreign miner can build: chains of Qi spends inside one block (tx2 spends an output of tx1 ...)
+	if !s.noChain && r.Chance(45) {
+		o.chain = 1 + r.Intn(3)
+		o.chainPct = 60 + 20*r.Intn(3)
+		o.spends = 2 + o.chain + r.Intn(2)
+	}
+	return o
+}
+
+// chain corpus scenario: the fork point holds fresh unlocked outputs of large denominations; the
+// first block of A carries chains of depth up to 4 (every link taken), the first block of B chains
+// of depth up to 3, the second blocks random content with chains; rolled back and re-appended in
+// both directions.
+func (s *scenario) chainBase(n *node, r *hlib.Rng, step func(*node, string, *blockOpts) *blockInfo) {
+	var inb types.Transactions
+	for j := 0; j < 8; j++ {
+		h := common.BytesToHash(r.Bytes(32))
+		to := id.qiA[j%3]
+		inb = append(inb, types.NewTx(&types.ExternalTx{OriginatingTxHash: h, ETXIndex: uint16(j), Gas: 21000, To: &to, Value: big.NewInt(int64(8 + j%3)), Sender: id.farQi, EtxType: types.DefaultType}))
+	}
+	step(n, "P", &blockOpts{noContent: true, miner: 0, forceInb: true, inbound: inb})
+	step(n, "P", &blockOpts{noContent: true, miner: 0})
+}
+
+func (s *scenario) chainOpts(branch string, i int, r *hlib.Rng) *blockOpts {
+	switch {
+	case i == 0 && branch == "A":
+		return &blockOpts{miner: 0, spends: 7, chain: 3, chainPct: 100}
+	case i == 0:
+		return &blockOpts{miner: 0, spends: 5, chain: 2, chainPct: 100}
+	}
+	o := s.randomOpts(r)
+	if o.chain == 0 {
+		o.chain, o.chainPct, o.spends = 2, 100, 4
+	}
+	return o
 }
 
 func (s *scenario) forkInbound(r *hlib.Rng) *blockOpts {
@@ -1888,7 +2242,7 @@ func main() {
 			rn.addLockOne(c.AddLock.Seed, c.Id)
 		} else {
 			s := mk(c.Scenario, c.ScnKind, c.Backend, c.ScnSeed)
-			s.allowDelegateChange, s.noLockups, s.Index = c.DelegChg, c.NoLockup, c.Index
+			s.allowDelegateChange, s.noLockups, s.noChain, s.Index = c.DelegChg, c.NoLockup, c.NoChain, c.Index
 			rn.nextID = 1
 			rn.runScenario(s)
 		}
@@ -1906,6 +2260,13 @@ func main() {
 			sid++
 		}
 	}
+	// chains of Qi spends inside one block on both branches (every backend, and once with the wallet index)
+	for i, bk := range []string{"memorydb", "leveldb", "pebble", "memorydb"} {
+		s := mk(sid, "chain", bk, 2000+uint64(sid))
+		s.Index = i == 3
+		rn.runScenario(s)
+		sid++
+	}
 	rn.addLockCases(rng.Fork(), 120)
 	// random scenarios
 	for i := 0; i < f.N; i++ {
@@ -1918,6 +2279,9 @@ func main() {
 		}
 		if i%4 == 1 || os.Getenv("C10_INDEX") != "" {
 			s.Index = true // wallet index (IndexAddressUtxos): monitors only, not in the model
+			// the index has a known defect on blocks with intra-block chains (the scenario stops at the
+			// first failing switch): every second index scenario runs without chains
+			s.noChain = i%8 == 5
 		}
 		rn.runScenario(s)
 		sid++
